@@ -716,3 +716,121 @@ def decision_root(body, blk):
 def ok_return_sites(body):
     """blocks that build the success value returned by the function (Result::Ok / Poll::Ready(Ok) ...)"""
     return [i for (i, j, rv, line) in agg_sites(body, r"^core::result::Result$", "Ok")]
+
+
+# --------------------------------------------------------------------------- comparison operands
+
+def _lf(p):
+    f, a = place_last_field(p)
+    return "%s.%s" % (a.split("::")[-1].split("<")[0] if a else "?", f)
+
+
+def value_roles(body, op, depth=4):
+    """canonical description of where an operand's value comes from: a set of
+    'field:<name>' | 'call:<Type::method>' | 'sum(<a>+<b>)' | 'arg:<n>' | 'const:<v>'"""
+    out = set()
+    p = op_place(op)
+    if p is None:
+        k = op_const(op)
+        out.add("const:%s" % (k.get("v") if isinstance(k, dict) else k))
+        return out
+    if len(p) > 1 and not (len(p) == 2 and p[1] in (".0", ".1")):
+        out.add("field:%s" % _lf(p))
+        return out
+    origins = body.trace_local(p[0]) if len(p) == 1 else [("place", p)]
+    for og in origins:
+        if og[0] == "arg":
+            out.add("arg:%d" % og[1])
+        elif og[0] == "const":
+            k = og[1]
+            out.add("const:%s" % (k.get("v") if isinstance(k, dict) else k))
+        elif og[0] == "call":
+            nm = short_name(callee(og[2]))
+            out.add("call:%s" % "::".join(nm.split("::")[-2:]))
+        elif og[0] == "place":
+            q = og[1]
+            if len(q) == 2 and q[1] == ".0" and depth > 0:
+                # checked arithmetic: (_t = AddWithOverflow(a, b)).0
+                hit = False
+                for (bb, jj, rv) in body.defs_of(q[0]):
+                    if jj != "term" and rv[0] == "bin" and rv[1].endswith("WithOverflow"):
+                        hit = True
+                        a = "|".join(sorted(value_roles(body, rv[2], depth - 1)))
+                        b_ = "|".join(sorted(value_roles(body, rv[3], depth - 1)))
+                        nm = {"AddWithOverflow": "sum", "SubWithOverflow": "diff", "MulWithOverflow": "prod"}.get(rv[1], rv[1])
+                        out.add("%s(%s,%s)" % (nm, a, b_) if nm != "sum" else "sum(%s)" % "+".join(sorted([a, b_])))
+                if not hit:
+                    out.add("field:%s" % _lf(q))
+            else:
+                out.add("field:%s" % _lf(q))
+        elif og[0] == "rv":
+            rv = og[1]
+            if rv[0] == "bin" and depth > 0:
+                a = "|".join(sorted(value_roles(body, rv[2], depth - 1)))
+                b_ = "|".join(sorted(value_roles(body, rv[3], depth - 1)))
+                if rv[1] in ("Add", "AddUnchecked"):
+                    out.add("sum(%s)" % "+".join(sorted([a, b_])))
+                else:
+                    out.add("%s(%s,%s)" % (rv[1].lower(), a, b_))
+            else:
+                out.add("rv:%s" % rv[0])
+    return out
+
+
+_NEG = {"Gt": "Le", "Ge": "Lt", "Lt": "Ge", "Le": "Gt", "Eq": "Ne", "Ne": "Eq"}
+_SWAP = {"Gt": "Lt", "Ge": "Le", "Lt": "Gt", "Le": "Ge", "Eq": "Eq", "Ne": "Ne"}
+
+
+def guard_cmp(body, blk):
+    """the comparison that immediately guards `blk`, normalised to the relation that HOLDS when blk runs:
+    (switch_blk, op, lhs_operand, rhs_operand) or None"""
+    cur = idom(body, blk)
+    while cur is not None and body.term(cur)["t"] != "switch":
+        cur = idom(body, cur)
+    if cur is None:
+        return None
+    t = body.term(cur)
+    pl = op_place(t["on"])
+    if pl is None or len(pl) != 1:
+        return None
+    neg = False
+    loc = pl[0]
+    for _ in range(3):
+        ds = [(bb, jj, rv) for (bb, jj, rv) in body.defs_of(loc) if jj != "term"]
+        if len(ds) != 1:
+            return None
+        rv = ds[0][2]
+        if rv[0] == "un" and rv[1] == "Not":
+            q = op_place(rv[2])
+            if q is None or len(q) != 1:
+                return None
+            loc = q[0]
+            neg = not neg
+            continue
+        if rv[0] == "use":
+            q = op_place(rv[1])
+            if q is None or len(q) != 1:
+                return None
+            loc = q[0]
+            continue
+        if rv[0] == "bin" and rv[1] in _NEG:
+            tr, fa = switch_edges_on_local(body, cur)
+            on_true = blk in body.reachable_from(list(tr), avoid={cur}) and blk not in body.reachable_from(list(fa), avoid={cur})
+            on_false = blk in body.reachable_from(list(fa), avoid={cur}) and blk not in body.reachable_from(list(tr), avoid={cur})
+            if not (on_true or on_false):
+                return None
+            holds = on_true != neg
+            op = rv[1] if holds else _NEG[rv[1]]
+            return (cur, op, rv[2], rv[3])
+        return None
+    return None
+
+
+def cmp_canon(body, g):
+    """canonical, order-independent text of a guard comparison: 'A OP B' with the lexicographically smaller role set first"""
+    (sw, op, a, b) = g
+    ra = "|".join(sorted(value_roles(body, a)))
+    rb = "|".join(sorted(value_roles(body, b)))
+    if ra > rb:
+        ra, rb, op = rb, ra, _SWAP[op]
+    return "%s %s %s" % (ra, op, rb)
